@@ -159,7 +159,13 @@ def _run(ck, pg, pgsql, files):
         base = files.new()
         del pg.ADSORBATE_LIST[:]
         del pg.MATERIAL_LIST[:]
-        prep = prepare(base, variant)
+        try:
+            prep = prepare(base, variant)
+        except Exception as e:  # noqa
+            # the prior content consists of valid uploads into a fresh store of the tree under check; a refusal there is C08's subject
+            # (reported there with the failing call) - here the fault enumeration on this content cannot be carried out
+            ck.broken.append({"step": f"prior content (variant {variant}): a valid upload into a fresh store was refused", "what": repr(e)[:400]})
+            continue
         base_slot = 1000 * (variant + 1)
         lines += ["reset" if variant == variants[0] else f"use {base_slot}", f"use {base_slot}"] + prep
         plan += [None] * (2 + len(prep))
